@@ -73,7 +73,7 @@ def confirm(outdir, pid, k, idx):
         shutil.copy(demo, os.path.join(dst, "demo.rs"))
         meta = {
             "property": pid,
-            "origin": "independent sub-agent given only the property text and a scratch worktree (round with prescribed kinds: numeric/data, state/bookkeeping, API edge)",
+            "origin": os.environ.get("SEED_ORIGIN", "independent sub-agent given only the property text and a scratch worktree"),
             "needs_to_manifest": open(note).read().strip() if os.path.exists(note) else "",
             "confirmed": {
                 "how": "scratch worktree of /repo HEAD: demo copied to tests/demo.rs; cargo test --offline (suite, with and without verif-hooks) and cargo test --offline --test demo, with and without the patch",
